@@ -51,6 +51,8 @@ type Case struct {
 	Workers  int         `json:"workers"`
 	Report   string      `json:"report"` // recording, data, html, html+pages
 	LastDays int         `json:"last_days"`
+	// Ghosts > 0: the name list is explicit and holds 2*Ghosts names the repository does not have
+	Ghosts int `json:"ghosts,omitempty"`
 	// Rerun > 0: the same Backtest and report instance run a second time, without the first
 	// Rerun-1 strategies of the list (0 dropped = an identical second run)
 	Rerun int `json:"rerun,omitempty"`
@@ -101,6 +103,9 @@ func genCase(t *rapid.T) Case {
 	for i, k := 0, rapid.IntRange(0, 3).Draw(t, "leaves"); i < k; i++ {
 		st, _ := sreg.ByName(names[i])
 		c.Leaves = append(c.Leaves, sreg.Tree{Op: "leaf", Leaf: names[i], Cfg: st.GenConfig(t)})
+	}
+	if c.Report != "recording" && rapid.IntRange(0, 4).Draw(t, "ghosts") == 2 {
+		c.Ghosts = rapid.IntRange(1, 4).Draw(t, "nghosts")
 	}
 	if rapid.IntRange(0, 3).Draw(t, "rerun") == 0 {
 		c.Rerun = 1 + rapid.IntRange(0, len(c.Words)+len(c.Leaves)-1).Draw(t, "dropped")
@@ -290,6 +295,17 @@ func check(c Case) engine.Outcome {
 	}
 	bt := backtest.NewBacktest(repo, rep)
 	bt.Workers, bt.LastDays, bt.Logger = c.Workers, c.LastDays, quiet
+	if c.Ghosts > 0 {
+		// an explicit name list that also holds assets the repository does not have: they are
+		// skipped (and logged), the others are backtested as usual
+		for i, a := range c.Assets {
+			bt.Names = append(bt.Names, a.Name)
+			if i < c.Ghosts {
+				bt.Names = append(bt.Names, fmt.Sprintf("ghost%02d", i), fmt.Sprintf("phantom%02d", i))
+			}
+		}
+		o.Class("names_include_missing_assets")
+	}
 	nearTie := false
 	for round := 0; round == 0 || (round == 1 && c.Rerun > 0); round++ {
 		if round == 1 {
